@@ -266,6 +266,35 @@ func checkWriters(c WCase) (WOutcome, error) {
 			if a.Code == 0 {
 				return out, fmt.Errorf("step %d: `migrate apply` accepted a tampered directory: %v", step, a)
 			}
+			// every other command that reads the directory refuses it too, however the directory is spelled
+			abs := "file://" + filepath.ToSlash(mdir)
+			readers := [][]string{
+				{"migrate", "status", "--dir", "file://m", "--url", "sqlite://" + sb.Path("target.db")},
+				{"migrate", "lint", "--dir", "file://m", "--dev-url", "sqlite://dev?mode=memory", "--latest", "1"},
+				{"migrate", "diff", "x", "--dir", "file://m", "--dev-url", "sqlite://dev?mode=memory", "--to", "file://schema.sql"},
+				{"schema", "diff", "--from", "sqlite://" + sb.Path("empty.db"), "--to", "file://m", "--dev-url", "sqlite://dev?mode=memory"},
+				{"schema", "diff", "--from", "sqlite://" + sb.Path("empty.db"), "--to", abs, "--dev-url", "sqlite://dev?mode=memory"},
+				{"schema", "diff", "--from", "file://./m", "--to", "sqlite://" + sb.Path("empty.db"), "--dev-url", "sqlite://dev?mode=memory"},
+				{"schema", "apply", "--url", "sqlite://" + sb.Path("empty.db"), "--to", "file://m", "--dev-url", "sqlite://dev?mode=memory", "--dry-run"},
+				{"schema", "inspect", "--url", "file://m", "--dev-url", "sqlite://dev?mode=memory"},
+				{"migrate", "validate", "--dir", abs},
+				{"migrate", "apply", "--dir", "file://./m", "--url", "sqlite://" + sb.Path("target.db"), "--dry-run"},
+			}
+			args := readers[(step+len(c.Ops))%len(readers)]
+			if _, err := os.Stat(sb.Path("schema.sql")); err != nil {
+				os.WriteFile(sb.Path("schema.sql"), []byte("CREATE TABLE t (id int);\n"), 0o644)
+			}
+			if _, err := os.Stat(filepath.Join(mdir, "atlas.sum")); err != nil {
+				// without a sum file a directory given as a schema is a plain directory of SQL files, not a migration directory
+				out.Keys = append(out.Keys, fmt.Sprintf("tampered-after-%s-%s", op.Kind, op.Tamper))
+				continue
+			}
+			// a directory left without .sql files is refused as "neither SQL nor HCL" before it is read as a migration directory
+			sqls, _ := filepath.Glob(filepath.Join(mdir, "*.sql"))
+			if rr := sb.Run(args...); rr.Code == 0 || len(sqls) > 0 && !strings.Contains(rr.Stdout+rr.Stderr, "checksum") {
+				return out, fmt.Errorf("step %d: `%s` does not refuse a tampered directory with a checksum error: %v", step, strings.Join(args[:2], " "), rr)
+			}
+			out.Classes = append(out.Classes, "writers/tampered-dir-read-by/"+strings.Join(args[:2], " "))
 			out.Keys = append(out.Keys, fmt.Sprintf("tampered-after-%s-%s", op.Kind, op.Tamper))
 		} else {
 			out.Keys = append(out.Keys, "valid-after-"+op.Kind)
